@@ -14,7 +14,7 @@ fn any_bits(max: u32) -> u32 {
     b
 }
 
-// @harness siqs_nfactors unit=siqs::nfactors props=C20
+// @harness siqs_nfactors unit=siqs::nfactors props=C20,C03
 #[kani::proof]
 #[kani::stub(bnum::BUint::bits, stub_bits)]
 fn siqs_nfactors() {
@@ -26,7 +26,7 @@ fn siqs_nfactors() {
     assert!(b < 200 || k == b / 25);
 }
 
-// @harness siqs_a_value_count unit=siqs::a_value_count props=C20
+// @harness siqs_a_value_count unit=siqs::a_value_count props=C20,C03
 #[kani::proof]
 #[kani::stub(bnum::BUint::bits, stub_bits)]
 fn siqs_a_value_count() {
@@ -37,7 +37,7 @@ fn siqs_a_value_count() {
     assert!(c >= 8 && c <= 100 * 330);
 }
 
-// @harness siqs_a_tolerance_divisor unit=siqs::a_tolerance_divisor props=C20
+// @harness siqs_a_tolerance_divisor unit=siqs::a_tolerance_divisor props=C20,C03
 #[kani::proof]
 #[kani::stub(bnum::BUint::bits, stub_bits)]
 fn siqs_a_tolerance_divisor() {
@@ -47,7 +47,7 @@ fn siqs_a_tolerance_divisor() {
     assert!(a_tolerance_divisor(&n) >= 3);
 }
 
-// @harness siqs_interval_size unit=siqs::interval_size props=C20
+// @harness siqs_interval_size unit=siqs::interval_size props=C20,C03
 #[kani::proof]
 #[kani::stub(bnum::BUint::bits, stub_bits)]
 fn siqs_interval_size() {
@@ -59,7 +59,7 @@ fn siqs_interval_size() {
     assert!(s > 0 && s % (sieve::BLOCK_SIZE as u32) == 0 && s <= 32 * 32768);
 }
 
-// @harness siqs_large_prime_factor unit=siqs::large_prime_factor props=C20
+// @harness siqs_large_prime_factor unit=siqs::large_prime_factor props=C20,C03
 #[kani::proof]
 #[kani::stub(bnum::BUint::bits, stub_bits)]
 fn siqs_large_prime_factor() {
@@ -70,7 +70,7 @@ fn siqs_large_prime_factor() {
     assert!(f >= 1 && f < (1 << 16));
 }
 
-// @harness siqs_double_large_factor unit=siqs::double_large_factor props=C20
+// @harness siqs_double_large_factor unit=siqs::double_large_factor props=C20,C03
 #[kani::proof]
 #[kani::stub(bnum::BUint::bits, stub_bits)]
 fn siqs_double_large_factor() {
